@@ -11,7 +11,7 @@
 From Coq Require Import QArith Qcanon Qcabs List Arith.
 From Verif.lib Require Import Bsp.
 From Verif.C02 Require Import Proofs.
-From Verif.C09 Require Import Model Proofs.
+From Verif.C09 Require Import Model Proofs Proofs_entry.
 Import ListNotations.
 Open Scope Qc_scope.
 
@@ -219,16 +219,134 @@ Theorem asym_first_active : forall kv p s a b ref x w x0 w0,
 Proof. exact asym_first_active_l. Qed.
 Print Assumptions asym_first_active.
 
-(* NOT PROVED: biform_1d_entry --
-     forall kv p du dv ref wf i j, kv_ok kv p -> (nodes of ref in (-1,1)) ->
-       mget (biform_1d kv p du dv ref wf) i j
-       = gram_ref kv p kv p du dv (weighted wf (iterated ref (mesh kv))) i j
-   (the assembled matrix IS the Gram matrix of the collocation rows, so that gram_sym,
-   gram_psd, mass_sum, stiff_kernel_const apply to the model's output), and the analogous
-   biform_asym_entry.  Missing: the list bookkeeping from the flattened element matrices /
-   COO triplets (slice of concat, sum over matching triplets) to the per-cell sums; the only
-   non-trivial arithmetic fact it needs is first_active_correct above.  The equality is
-   evaluated exactly (vm_compute, check `model-vs-gram-form`) on every correspondence case. *)
+(* biform_1d_entry: the matrix assembled by bsp_mixed_deriv_biform_1d -- element matrices of the
+   values bspline.active_deriv returns at the Gauss nodes, flattened, scattered as COO triplets
+   with the offsets first_active(mesh_span_indices), duplicates summed by tocsr() -- has as entry
+   (i,j) the sum over all spans and nodes of  weight * N_i^(dv)(x) * N_j^(du)(x)  with N^(k) the
+   Cox-de Boor reference derivative (dNref), for EVERY kv_ok knot vector (any multiplicities),
+   degree, derivative orders, reference rule with nodes in (-1,1) and weight function.
+   wgt wf (x,w) = w (no weight function) or w * f(x). *)
+Theorem biform_1d_entry : forall kv p du dv ref wf i j,
+  kv_ok kv p -> (forall xw, In xw ref -> - (1) < fst xw /\ fst xw < 1) ->
+  (i < numdofs kv p)%nat -> (j < numdofs kv p)%nat ->
+  let coo := biform_1d_coo kv p du dv ref wf in
+  coo_get (fst coo) (snd coo) i j
+  = sumf (fun xw => wgt wf xw * (dNref kv dv p i (fst xw) * dNref kv du p j (fst xw))) (iterated ref (mesh kv)).
+Proof. exact biform_1d_entry_l. Qed.
+Print Assumptions biform_1d_entry.
+
+(* the same with the dense collocation rows (Model.gram_ref), and the access to the dense result *)
+Theorem biform_1d_entry_colloc : forall kv p du dv ref wf i j,
+  kv_ok kv p -> (forall xw, In xw ref -> - (1) < fst xw /\ fst xw < 1) ->
+  (i < numdofs kv p)%nat -> (j < numdofs kv p)%nat ->
+  entry1d kv p du dv ref wf i j
+  = gram_ref kv p kv p du dv (map (fun xw => (fst xw, wgt wf xw)) (iterated ref (mesh kv))) i j.
+Proof. exact biform_1d_entry_colloc_l. Qed.
+Print Assumptions biform_1d_entry_colloc.
+
+Theorem coo_dense_entry : forall IJ data i j,
+  (i < fst (coo_shape IJ))%nat -> (j < snd (coo_shape IJ))%nat ->
+  mget (coo_dense IJ data) i j = coo_get IJ data i j.
+Proof. exact coo_dense_get. Qed.
+Print Assumptions coo_dense_entry.
+
+(* biform_asym_entry: two knot vectors (trial kv1 / columns / du, test kv2 / rows / dv) on a
+   quadrature grid that refines both meshes (every grid cell non-degenerate and inside one knot
+   span of each): the first-active offsets taken at the FIRST node of each cell are right. *)
+Theorem biform_asym_entry : forall kv1 p1 kv2 p2 du dv grid ref i j,
+  kv_ok kv1 p1 -> kv_ok kv2 p2 -> (forall xw, In xw ref -> - (1) < fst xw /\ fst xw < 1) ->
+  grid_refines kv1 grid -> grid_refines kv2 grid ->
+  (i < numdofs kv2 p2)%nat -> (j < numdofs kv1 p1)%nat ->
+  let coo := biform_asym_coo kv1 p1 kv2 p2 du dv grid ref in
+  coo_get (fst coo) (snd coo) i j
+  = sumf (fun xw => snd xw * (dNref kv2 dv p2 i (fst xw) * dNref kv1 du p1 j (fst xw))) (iterated ref grid).
+Proof. exact biform_asym_entry_l. Qed.
+Print Assumptions biform_asym_entry.
+
+(* the default grid quadgrid = knotvec1.mesh refines knotvec1's own mesh *)
+Theorem mesh_refines_itself : forall kv p, kv_ok kv p -> grid_refines kv (mesh kv).
+Proof. exact mesh_refines_self. Qed.
+Print Assumptions mesh_refines_itself.
+
+(* Consequences for the ACTUAL B-spline matrices: the partition-of-unity / derivative-sum
+   hypotheses of mass_sum and stiff_kernel_const are discharged by C02
+   (N_partition_of_unity_all, dN_sum_zero_all). *)
+Theorem mass_sum_bspline : forall kv p ref wf,
+  kv_ok kv p -> (forall xw, In xw ref -> - (1) < fst xw /\ fst xw < 1) ->
+  sumf (fun i => sumf (fun j => entry1d kv p 0 0 ref wf i j) (seq 0 (numdofs kv p))) (seq 0 (numdofs kv p))
+  = sumf (wgt wf) (iterated ref (mesh kv)).
+Proof. exact mass_sum_bspline_full_l. Qed.
+Print Assumptions mass_sum_bspline.
+
+(* unweighted, any reference rule whose weights sum to 2: sum of the entries = |domain| *)
+Theorem mass_sum_domain : forall kv p ref,
+  kv_ok kv p -> (forall xw, In xw ref -> - (1) < fst xw /\ fst xw < 1) -> sumf snd ref = Q2Qc (2 # 1) ->
+  sumf (fun i => sumf (fun j => entry1d kv p 0 0 ref None i j) (seq 0 (numdofs kv p))) (seq 0 (numdofs kv p))
+  = kn kv (length kv - 1) - kn kv 0.
+Proof. exact mass_sum_domain_l. Qed.
+Print Assumptions mass_sum_domain.
+
+(* a derivative of order >= 1 on the trial side (stiffness: du = dv = 1): K * 1 = 0 *)
+Theorem stiff_kernel_bspline : forall kv p du dv ref wf i,
+  kv_ok kv p -> (forall xw, In xw ref -> - (1) < fst xw /\ fst xw < 1) ->
+  (1 <= du)%nat -> (i < numdofs kv p)%nat ->
+  sumf (fun j => entry1d kv p du dv ref wf i j) (seq 0 (numdofs kv p)) = 0.
+Proof. exact stiff_kernel_bspline_l. Qed.
+Print Assumptions stiff_kernel_bspline.
+
+Theorem biform_1d_symmetric : forall kv p d ref wf i j,
+  kv_ok kv p -> (forall xw, In xw ref -> - (1) < fst xw /\ fst xw < 1) ->
+  (i < numdofs kv p)%nat -> (j < numdofs kv p)%nat ->
+  entry1d kv p d d ref wf i j = entry1d kv p d d ref wf j i.
+Proof. exact sym_bspline_l. Qed.
+Print Assumptions biform_1d_symmetric.
+
+Theorem biform_1d_psd : forall kv p d ref wf (c : nat -> Qc),
+  kv_ok kv p -> (forall xw, In xw ref -> - (1) < fst xw /\ fst xw < 1) ->
+  (forall xw, In xw (iterated ref (mesh kv)) -> 0 <= wgt wf xw) ->
+  0 <= sumf (fun i => sumf (fun j => c i * entry1d kv p d d ref wf i j * c j) (seq 0 (numdofs kv p))) (seq 0 (numdofs kv p)).
+Proof. exact psd_bspline_l. Qed.
+Print Assumptions biform_1d_psd.
+
+(* ... whose weight hypothesis holds without a weight function for non-negative reference weights *)
+Theorem iterated_weights_nonneg : forall kv p ref xw,
+  kv_ok kv p -> (forall xw, In xw ref -> 0 <= snd xw) ->
+  In xw (iterated ref (mesh kv)) -> 0 <= snd xw.
+Proof. exact Proofs_entry.iterated_weights_nonneg. Qed.
+Print Assumptions iterated_weights_nonneg.
+
+(* The default number of nodes nqp = int(ceil((P - du - dv + 1)/2)) (P = 2p, resp. p1 + p2): the
+   integrand N^(dv) N^(du) has degree P - du - dv on each span, a q-node Gauss rule is exact to
+   degree 2q - 1: the default is >= 1, sufficient, and the least sufficient count. *)
+Theorem nqp_default_suffices : forall P du dv, (du + dv <= P)%nat ->
+  let q := Z.to_nat (nqp_default P du dv) in
+  (P - du - dv <= 2 * q - 1)%nat /\ (1 <= q)%nat /\ (2 * (q - 1) - 1 < P - du - dv \/ q = 1)%nat.
+Proof. exact nqp_default_suffices_l. Qed.
+Print Assumptions nqp_default_suffices.
+
+(* the run-time table check (rule_ok, gen/C09_leggauss) in the form quad_poly_defect consumes *)
+Theorem rule_ok_moment_defects : forall eps n r, rule_ok eps n r = true ->
+  forall i, (i < 2 * n)%nat -> Qcabs (rule_moment r i - moment_exact i) <= eps.
+Proof. exact rule_ok_moments. Qed.
+Print Assumptions rule_ok_moment_defects.
+
+(* nqp exactness: a reference rule that passes the table check for the DEFAULT node count
+   integrates every polynomial of the integrand's degree P - du - dv over [-1,1] with defect
+   <= eps * (l1 norm of its coefficients); eps = 0 for an exact rule. *)
+Theorem nqp_default_exact : forall P du dv eps r c, (du + dv <= P)%nat ->
+  rule_ok eps (Z.to_nat (nqp_default P du dv)) r = true ->
+  (length c <= P - du - dv + 1)%nat ->
+  Qcabs (sumf (fun xw => snd xw * peval c (fst xw)) r - pint 0 c) <= eps * l1norm c.
+Proof. exact nqp_default_exact_l. Qed.
+Print Assumptions nqp_default_exact.
+
+(* NOT PROVED (for the end-to-end "entries equal the exact integrals"): that the restriction of
+   N_i^(dv) * N_j^(du) (dNref) to one knot span IS a polynomial of degree <= P - du - dv, i.e. the
+   coefficient list that nqp_default_exact needs (piecewise-polynomial structure of the Cox-de Boor
+   recursion; evaluated exactly by the oracle harness/props/c09_oracle.py on every case), and
+   Gauss exactness beyond the bounded table check.  Definiteness of M / dim ker K = 1 need
+   unisolvence and are checked by exact LDL^T / rank on the oracle.
+   The lemma below is the per-node scatter identity biform_1d_entry was built from. *)
 Theorem biform_1d_entry_partial : forall kv p ref k x w,
   kv_ok kv p ->
   (forall xw, In xw ref -> - (1) < fst xw /\ fst xw < 1) ->
